@@ -7,19 +7,16 @@ VERIF = os.environ.get("VERIF_ROOT", "/verif")
 TB = ("Trusted: Coq 8.16.1 kernel (vm_compute, no native_compute); no axioms (Print Assumptions: closed) unless "
       "named; ExtrOcamlBasic extraction + coq/driver/driver.ml; the Python correspondence harness; ")
 
-CHECKS = {
-    "C18": dict(
-        text="Theorems over ALL GraphQL names (unbounded length) about a Gallina model of str_to_snake_case/"
-             "process_name: valid identifier, not keyword, not pydantic-reserved, idempotent (guarded by the boolean "
-             "finding class g_c18), letters/digits preserved and snake idempotence (unguarded), wire name kept; "
-             "refutation witnesses for the full statements. Model tied to /repo by exhaustive K1 over "
-             "{a,b,A,B,0,1,_}^<=6 x 8 flag combinations plus keywords/reserved names, and K3 collision scopes "
-             "through the real generator.",
-        note=TB + "CPython re/keyword semantics and pydantic's attribute list are modelled (list checked each run); "
-             "names are ASCII.",
-        technique="Coq proof (induction on character lists, normal-form invariant) + exhaustive model/code correspondence",
-        design="§6 C18"),
-}
+def load_checks():
+    d = {}
+    md = os.path.join(VERIF, "harness", "vh", "meta")
+    for f in sorted(os.listdir(md)):
+        if f.endswith(".json"):
+            d[f[:-5]] = json.load(open(os.path.join(md, f)))
+    return d
+
+
+CHECKS = load_checks()
 
 NOT_YET = {}
 
